@@ -275,6 +275,15 @@ fn power_case() -> impl Strategy<Value = PowerCase> {
 	(prop_oneof![4 => crash_scenario(3, 4, 12, true, 40_000).boxed(), 1 => super::c09::scenario(10, 200).boxed()], any::<u64>()).prop_map(|(mut sc, sample_seed)| {
 		// the property is about power loss with the sync options on
 		sc.cfg.sync_data = true;
+		// one history in four ends with a worker failure (background-error state) followed by
+		// the drop of the handle and a reopen
+		// (everything committed is logged, synced and applied first - but not reclaimed - so
+		// that nothing is lost by the shutdown in the error state and the model stays exact)
+		if sample_seed % 4 == 0 {
+			let commits = sc.ops.iter().filter(|o| matches!(o, Op::Commit(_))).count();
+			sc.ops.extend(std::iter::repeat(Op::P).take(commits + 1));
+			sc.ops.extend([Op::F, Op::E, Op::F, Op::E, Op::ReopenAfterError]);
+		}
 		PowerCase { sc, sample_seed, only: None }
 	})
 }
